@@ -12,6 +12,7 @@ import (
 	"flag"
 	"fmt"
 	"os"
+	"sort"
 	"strings"
 )
 
@@ -258,6 +259,24 @@ func (g *HGen) Lean() string {
 	}
 	fact("stateApiUnclassified", "the rows of `stateApi` whose class is not one of ro/mut/mutQ/restore/txctl/cache (unclassified, or a mutating method whose bare name the extractor treats as harmless)", hT3(uncl), 3)
 	fact("queryCalls", "call sites of contract.Query / contract.CheckFeeDelegation: (file, function, callee, origin of the BlockState argument)", hT4(g.QueryCalls), 4)
+	fact("flagForeign", "tests of `.isQuery` / `.nestedView` whose receiver is not the function's own context (they are opaque conditions in the IR): (function, expression)", hT2(f.FlagForeign), 2)
+	fact("ctxArgs", "a *vmContext handed to an in-package function or put into an executor literal that is not the function's own context: (function, callee, argument)", hT3(f.CtxArgs), 3)
+	fact("isViewWrites", "every assignment to `executor.isView`: (function, right-hand side)", hT2(f.IsViewWrites), 2)
+	fact("sqlOpens", "every `sql.Open`: (function, driver, DSN, query_only | writable)", hT4(f.SQLOpens), 4)
+	fact("sqlExecs", "every SQL text executed through database/sql by the analysed functions: (function, leading text, class)", hT3(f.SQLExecs), 3)
+	fact("ifaceImpls", "implementations of the in-package interface methods that the tables classify: (interface.method, class, implementation)", hT3(f.IfaceImpls), 3)
+	fact("flagBranches", "every branch whose condition tests a read-only flag: (function, condition over the abstract flags, shape of the two arms)", hT3(f.FlagBranches), 3)
+	ro := append([]string(nil), f.RoCallees...)
+	sort.Strings(ro)
+	fmt.Fprintf(&b, "/-- functions and methods of the state-bearing packages that the tables class as reads and that the analysed code calls (driven on the real code by harness/c20) -/\ndef roCallees : List String := %s\n\n", hLeanStrList(ro))
+	fmt.Fprintf(&b, "/-- what `luaCheckView` returns to the C guards (`nestedView` = a plain conversion of the own context's counter) -/\ndef checkViewRet : List String := %s\n\n", hLeanStrList(f.CheckViewRet))
+	var ex [][]string
+	for _, fn := range g.Real.Funcs {
+		if why, ok := hostTables.RefuseExempt[fn.Name]; ok {
+			ex = append(ex, []string{fn.Name, why})
+		}
+	}
+	fact("refuseExempt", "functions that depend on a read-only flag without returning an error (their bodies start with an `exempt` event): (function, why accepted)", ex, 2)
 	g.C.Lean(&b)
 	b.WriteString("end Aergo.Gen.HostApi\n")
 	return b.String()
@@ -279,8 +298,19 @@ func (c *HCFacts) Lean(b *strings.Builder) {
 		if i > 0 {
 			b.WriteString(",")
 		}
-		fmt.Fprintf(b, "\n  { file := %s, table := %s, luaName := %s, cfunc := %s, callbacks := %s, sqlStep := %v, guardsBeforeStep := %s }",
-			hLeanStr(f.File), hLeanStr(f.Table), hLeanStr(f.LuaName), hLeanStr(f.CFunc), hLeanStrList(f.Callbacks), f.SQLStep, hLeanStrList(f.GuardsBeforeStep))
+		var gs []string
+		for _, gd := range f.Guards {
+			cmp := ".other"
+			switch gd.Cmp {
+			case "gt", "ge", "ne":
+				cmp = fmt.Sprintf("(.%s %d)", gd.Cmp, gd.K)
+			case "truthy":
+				cmp = ".truthy"
+			}
+			gs = append(gs, fmt.Sprintf("{ call := %s, cmp := %s, raises := %v, text := %s }", hLeanStr(gd.Call), cmp, gd.Raise, hLeanStr(gd.Text)))
+		}
+		fmt.Fprintf(b, "\n  { file := %s, table := %s, luaName := %s, cfunc := %s, callbacks := %s, sqlStep := %v, guardsBeforeStep := %s,\n    guards := [%s] }",
+			hLeanStr(f.File), hLeanStr(f.Table), hLeanStr(f.LuaName), hLeanStr(f.CFunc), hLeanStrList(f.Callbacks), f.SQLStep, hLeanStrList(f.GuardsBeforeStep), strings.Join(gs, ", "))
 	}
 	b.WriteString("]\n\n")
 	fmt.Fprintf(b, "/-- direct C callers of the exported Go callbacks: (callback, C function) -/\ndef cCallbackCallers : List (String × String) := %s\n\n", hLeanTuples(hT2(c.CallbackCallers)))
@@ -357,6 +387,8 @@ func (g *HGen) Dump() string {
 		for _, u := range p.Facts.Unknown {
 			fmt.Fprintf(&b, "UNKNOWN %s: %s @%s\n", u[0], u[1], u[2])
 		}
+		fmt.Fprintf(&b, "FACT flagForeign %v\nFACT ctxArgs %v\nFACT isViewWrites %v\nFACT sqlOpens %v\nFACT sqlExecs %v\nFACT roCallees %v\nFACT ifaceImpls %v\nFACT flagBranches %v\nFACT checkViewRet %v\n",
+			p.Facts.FlagForeign, p.Facts.CtxArgs, p.Facts.IsViewWrites, p.Facts.SQLOpens, p.Facts.SQLExecs, p.Facts.RoCallees, p.Facts.IfaceImpls, p.Facts.FlagBranches, p.Facts.CheckViewRet)
 	}
 	return b.String()
 }
